@@ -184,6 +184,8 @@ class Worker(object):
                 judge_c10.finish(self, run, trace, nodes, node)
             elif prop == "C10CF":
                 judge_c10.finish_cf(self, run, trace, nodes, node)
+            elif prop == "C10OWN":
+                judge_c10.finish_own(self, run, trace, nodes, node)
             else:
                 judge_c08.finish(self, run, trace, nodes, node)
 
